@@ -102,7 +102,7 @@ type handle struct {
 	data []byte // bytes supplied since Get / Reset
 }
 
-const hashTimeout = 12 * time.Second
+const hashTimeout = 45 * time.Second // generous: on a heavily loaded machine a goroutine can starve for seconds
 
 // hangs counts Hash calls that never answered.  Each costs hashTimeout; once there are maxHangs of them
 // the remaining scenarios are not started (the recording simply holds fewer scenarios), so that a tree
